@@ -109,6 +109,33 @@ def Stmt.hasBranch : Stmt → Bool
   | .atom _ => false
   | _ => true
 
+def Stmt.hasRet : Stmt → Bool
+  | .nop => false
+  | .seq a b => a.hasRet || b.hasRet
+  | .atom .ret => true
+  | .atom _ => false
+  | .ite t e => t.hasRet || e.hasRet
+  | .iflet _ _ _ _ t e => t.hasRet || e.hasRet
+  | .while b => b.hasRet
+
+/-- a conditional both of whose branches contain a `return`, nested inside a branch of another
+    conditional (the shape of the known finding `rejects-linear-nested-returns`) -/
+def Stmt.hasBothRet : Stmt → Bool
+  | .nop => false
+  | .seq a b => a.hasBothRet || b.hasBothRet
+  | .atom _ => false
+  | .ite t e => (t.hasRet && e.hasRet) || t.hasBothRet || e.hasBothRet
+  | .iflet _ _ _ _ t e => (t.hasRet && e.hasRet) || t.hasBothRet || e.hasBothRet
+  | .while b => b.hasBothRet
+
+def Stmt.hasNestedReturns : Stmt → Bool
+  | .nop => false
+  | .seq a b => a.hasNestedReturns || b.hasNestedReturns
+  | .atom _ => false
+  | .ite t e => t.hasBothRet || e.hasBothRet
+  | .iflet _ _ _ _ t e => t.hasBothRet || e.hasBothRet
+  | .while b => b.hasNestedReturns
+
 def Stmt.size : Stmt → Nat
   | .nop => 0
   | .seq a b => a.size + b.size
